@@ -130,3 +130,13 @@ Example entry_example :
   nth_error (main_seq nat nat (fun x => x * 10) (fun r => Nat.eqb r 30) [7; 2]) 1 = Some 20 /\
   main_seq nat nat (fun x => x * 10) (fun r => Nat.eqb r 30) [2] = [20].
 Proof. vm_compute. repeat split; reflexivity. Qed.
+
+(* C19: a rejected file (its result carries a failing status and does not ask to stop) makes the batch exit with
+   status 1 and every remaining file is still processed *)
+Theorem rejected_file_fails_batch F R (f : F -> R) (stop status : R -> bool) files x :
+  forallb (fun y => negb (stop (f y))) files = true -> In x files -> status (f x) = true ->
+  main_seq F R f stop files = map f files /\ exit_status R status (main_seq F R f stop files) = true.
+Proof.
+  intros Hns Hin Hst. rewrite (no_stop_all F R f stop files Hns). split; [reflexivity|].
+  apply exit_status_or. exists (f x). split; [now apply in_map|exact Hst].
+Qed.
